@@ -575,6 +575,10 @@ class GraphAnalysis:
                 if k == "ge" and a.c:
                     for t in (a, a + 1, -a - 1):
                         tm[repr(t)] = t
+                elif k in ("eq", "ne") and a.c:
+                    # a loop that runs `while (p != end)`: the fact that carries it is one of  a >= 0, a <= 0, a >= 1, a <= -1
+                    for t in (a, -a, a - 1, -a - 1):
+                        tm[repr(t)] = t
         State.templates = list(tm.values())
         self.state = {}
         st = FState()
@@ -618,6 +622,11 @@ class GraphAnalysis:
                     val = -a.k / x
                     if val.denominator == 1 and st.lb.get(v) == val:
                         st.lb[v] = int(val) + 1
+                # a != 0 on top of a one-sided fact: a >= 0 gives a >= 1, a <= 0 gives a <= -1 (integers)
+                if a.c and st.prove_nonneg(a):
+                    st.add_ineq(tighten(a - 1))
+                elif a.c and st.prove_nonneg(-a):
+                    st.add_ineq(tighten(-a - 1))
         if not st.bottom:
             st._check_feasible()
         if not st.bottom:
